@@ -11,3 +11,4 @@ CONSTANTS
 INVARIANTS TypeOK SubList OperatorAtomic EnoughSeats Agreement TooManyExact
   DistinctExclusions OnlyEligible ClassOrder ExhaustedExact KeygenDropsOneToThree
   SigningMinimal SigningNeverExhausted AmongSingles SigningLoopLemma
+VIEW OrderView
